@@ -33,6 +33,9 @@ def base_config(rng, sc):
     lr = sc.add_reverse_listener("rev", oaddr)
     lru = sc.add_reverse_listener("revudp", "10.9.0.9:%d" % sc.port(), protocol="udp")
     lq = sc.add_quic_listener("quic")
+    if rng.random() < 0.5:
+        ltp = sc.add_tproxy_listener("tp")
+        sc.cfg["listeners"][-1]["maxUdpSocket"] = rng.choice([1, 128, 128, 65536])
     sc.add_direct("direct", dns={"servers": rng.choice(["system", "1.1.1.1", "8.8.8.8:53,1.1.1.1"]), "family": rng.choice(["V4Only", "V6Only", "V4First", "V6First"])},
                   **({"bind": "10.0.0.1"} if rng.random() < 0.2 else {}))
     h = sc.add_http_connector("uhttp", tls=rng.random() < 0.4)
@@ -159,6 +162,24 @@ def rand_expr(rng, t, d=0, odd=0.04):
 
 
 
+def deep_expr(rng):
+    """expressions whose only unusual property is their nesting depth -> (text, class)"""
+    # depths around 30 and unbalanced parentheses from depth 8 make the parser run for hours (one watchdog period per run):
+    # kept rare so that the quick tier stays quick
+    slow = rng.random() < 0.12
+    n = 30 if slow else rng.choice([10, 300, 2000, 5000])
+    k = rng.choice([0, 1, 2, 4]) if not slow else rng.choice([0, 3])
+    if k == 0:
+        return "(" * n + "1 == 1" + ")" * n, n
+    if k == 1:
+        return "!" * n + "true", n
+    if k == 2:
+        return "[" * n + "1" + "]" * n + " == 1", n
+    if k == 3:
+        return "(" * 9 + "1", 9          # unbalanced
+    return "-" * n + "1 == 1", n
+
+
 def paths(node, prefix=()):
     out = []
     if isinstance(node, dict):
@@ -280,6 +301,10 @@ def mutate_once(rng, cfg, desc):
                                   {"target": "direct", "filter": "1 / (request.target.port - request.target.port) == 1"}, {"target": "direct", "filter": "request.nosuch == 1"}])
                 if rng.random() < 0.5:
                     bad = {"target": "direct", "filter": rand_expr(rng, "B", odd=0.15)}
+                if rng.random() < 0.04:
+                    text, depth = deep_expr(rng)
+                    bad = {"target": "direct", "filter": text}
+                    desc.append("deep-nesting %d" % depth)
                 cfg["rules"].insert(rng.randint(0, len(cfg["rules"])), bad)
                 desc.append("rule %r" % (bad,))
         elif k == 10:
@@ -292,6 +317,22 @@ def mutate_once(rng, cfg, desc):
             if rng.random() < 0.5 and isinstance(cfg.get("accessLog"), dict):
                 cfg["accessLog"]["format"] = {"script": v}
             desc.append("script %r" % v)
+        elif k == 11 and rng.random() < 0.5:
+            which = rng.randrange(3)
+            if which == 0 and isinstance(cfg.get("metrics"), dict) and isinstance(cfg.get("listeners"), list) and cfg["listeners"]:
+                e = rng.choice(cfg["listeners"])
+                if isinstance(e, dict) and isinstance(e.get("bind"), str):
+                    cfg["metrics"]["bind"] = e["bind"]
+                    desc.append("metrics.bind = bind of listener %s" % e.get("name"))
+            elif which == 1 and isinstance(cfg.get("metrics"), dict):
+                v = rng.choice(["/:", "/*", "/a/:b", "/a/*b", "/{x}", "//", "/a b", "/%zz", "/\u00e9", "/api/", "/a:b", "/:/x"])
+                cfg["metrics"]["apiPrefix"] = v
+                desc.append("apiPrefix %r" % v)
+            else:
+                for e in cfg.get("listeners") or []:
+                    if isinstance(e, dict) and e.get("type") == "tproxy":
+                        e["maxUdpSocket"] = rng.choice([0, 2 ** 64 - 1, 2 ** 40, 2 ** 32, -1])
+                        desc.append("maxUdpSocket %r" % e["maxUdpSocket"])
         else:
             sec = rng.choice(["timeouts", "ioParams", "metrics", "accessLog", "apiVersion", "kind", "listeners", "connectors", "rules"])
             v = copy.deepcopy(rng.choice(RETYPES))
@@ -339,16 +380,22 @@ def gen(rng, tier, i):
             if len(probes) > 10:
                 break
     post_bodies = []
+    deep_posts = []
     for k in range(rng.choice([0, 0, 1, 2])):
         body = copy.deepcopy(rng.choice([[{"target": "direct"}], [{"target": "nosuch"}], [{"target": "direct", "filter": 'request.target.port == "1"'}], [], "x", {"a": 1}, [5], [{"filter": "true"}],
                                          [{"target": "direct", "filter": "request.target.host =~ \"(\""}], [{"target": "deny", "filter": "1 / 0 == 1"}], None, [{"target": "lb", "filter": "`a` == \"a\""}]]))
+        if rng.random() < 0.03:
+            text, depth = deep_expr(rng)
+            body = [{"target": "direct", "filter": text}]
+            deep_posts.append("deep-nesting %d (posted)" % depth)
         sc.api_call("post%d" % k, "POST", "/api/rules", body=json.dumps(body), start_ms=300 + 100 * k, timeout_ms=8000, background=True)
         post_bodies.append(body)
         hs, proto = sc.client_handshake(lis["http"], "10.9.0.9", int(oaddr.rsplit(":", 1)[1]))
         sc.add_client("after-post%d" % k, lis["http"], [dict(o, on_fail="continue", timeout_ms=8000) for o in hs] + [op("recv_eof", timeout_ms=8000, on_fail="continue")], start_ms=350 + 100 * k)
-    sc.meta = {"cls": "m%d" % len(desc), "cfgkey": str(hash(json.dumps(cfg, sort_keys=True, default=str)) % 10 ** 9), "mutations": desc, "probes": probes, "posts": len(post_bodies), "keep_ops": True}
+    sc.meta = {"cls": "m%d" % len(desc), "cfgkey": str(hash(json.dumps(cfg, sort_keys=True, default=str)) % 10 ** 9), "mutations": desc + deep_posts, "probes": probes, "posts": len(post_bodies), "keep_ops": True}
     sc.max_ms = 40000
-    plan = sc.plan(want_events=False, watchdog_s=30)
+    # (plans with a deeply nested expression either finish at once or run for hours: a shorter watchdog keeps the tier quick)
+    plan = sc.plan(want_events=False, watchdog_s=10 if any(m.startswith("deep-nesting") for m in desc + deep_posts) else 30)
     return plan
 
 
@@ -385,7 +432,11 @@ def oracle(plan, out):
     V = []
     muts = "; ".join(meta["mutations"])[:300]
 
+    deep = any(m.startswith("deep-nesting") for m in meta["mutations"])
+
     def v(clause, sig, text):
+        if deep and (sig in ("hang",) or sig.startswith("signal-stack-overflow") or sig.startswith("signal-sig")):
+            sig += "/deep-nesting"      # identified by the input class: depth of the expression, nothing else unusual
         V.append(Violation(ID, clause, "C18/%s/%s" % (clause, sig), text + " [mutations: %s]" % muts))
 
     # 1. --test
